@@ -64,6 +64,7 @@ type PfReq struct {
 
 var segMaps = map[string]map[string]string{
 	"plain":   {"x": "dav", "y": "v1", "z": "srv", "u1": "alice", "u2": "bob", "hs": "home", "c1": "work", "c2": "private", "c9": "newcol", "o1": "e1", "o2": "e2", "o9": "new", "deep": "more", "other": "other"},
+	"prefix":  {"x": "dav", "y": "da", "z": "d", "u1": "alice", "u2": "al", "hs": "home", "c1": "work", "c2": "wor", "c9": "w", "o1": "e1", "o2": "e", "o9": "e10", "deep": "more", "other": "alic"},
 	"same":    {"x": "dav", "y": "dav", "z": "dav", "u1": "dav", "u2": "vad", "hs": "dav", "c1": "dav", "c2": "add", "c9": "ada", "o1": "dav", "o2": "d", "o9": "a", "deep": "v", "other": "avd"},
 	"special": {"x": "a b", "y": "ü.v", "z": "x+y;z", "u1": "al ice", "u2": "b%41b", "hs": "h.s", "c1": "wörk", "c2": "p r", "c9": "n'c", "o1": "e 1", "o2": "é2", "o9": "n&w", "deep": "m", "other": "o"},
 }
